@@ -377,8 +377,19 @@ class annotate(object):
         on the function
     """
 
-    def __init__(self, __return_annotation=_util.UNSET, **annotations):
-        self.ret = __return_annotation
+    def __init__(*args, **annotations):
+        # the receiver is taken off the positional arguments so that a
+        # parameter called `self` can be annotated
+        self, args = args[0], args[1:]
+        if len(args) > 1:
+            raise TypeError(
+                'annotate() takes at most 1 positional argument '
+                '({0} given)'.format(len(args)))
+        if args:
+            self.ret = args[0]
+        else:
+            self.ret = annotations.pop(
+                '_annotate__return_annotation', _util.UNSET)
         self.annotations = annotations
         self.to_use = set(annotations)
 
